@@ -599,18 +599,18 @@ cdef class CPUDomainManager(DomainManagerBase):
             z = added.get_carray('z')
             if mirror_in_x:
                 # x_low
-                copy = pa.extract_particles( x_low )
+                copy = pa.extract_particles(x_low, None, False)
                 if copy.get_number_of_particles() > 0:
                     self._add_array_to_array(copy.get_carray('x'), xt_low)
                     self._mul_to_array(copy.get_carray('u'), -1)
-                    added.append_parray(copy)
+                    added.append_parray(copy, False)
 
                 # x_high
-                copy = pa.extract_particles( x_high )
+                copy = pa.extract_particles(x_high, None, False)
                 if copy.get_number_of_particles() > 0:
                     self._add_array_to_array(copy.get_carray('x'), xt_high)
                     self._mul_to_array(copy.get_carray('u'), -1)
-                    added.append_parray(copy)
+                    added.append_parray(copy, False)
 
             if mirror_in_y:
                 # Now do the corners from the previous.
@@ -626,32 +626,32 @@ cdef class CPUDomainManager(DomainManagerBase):
                         high.append(i)
                         high_translate.append(2*(ymax - yi))
 
-                copy = added.extract_particles(low)
+                copy = added.extract_particles(low, None, False)
                 if copy.get_number_of_particles() > 0:
                     self._add_array_to_array(copy.get_carray('y'), low_translate)
                     self._mul_to_array(copy.get_carray('v'), -1)
-                    added.append_parray(copy)
+                    added.append_parray(copy, False)
 
-                copy = added.extract_particles(high)
+                copy = added.extract_particles(high, None, False)
                 if copy.get_number_of_particles() > 0:
                     self._add_array_to_array(copy.get_carray('y'), high_translate)
                     self._mul_to_array(copy.get_carray('v'), -1)
-                    added.append_parray(copy)
+                    added.append_parray(copy, False)
 
                 # Add the actual y_high and y_low now.
                 # y_high
-                copy = pa.extract_particles( y_high )
+                copy = pa.extract_particles(y_high, None, False)
                 if copy.get_number_of_particles() > 0:
                     self._add_array_to_array(copy.get_carray('y'), yt_high)
                     self._mul_to_array(copy.get_carray('v'), -1)
-                    added.append_parray(copy)
+                    added.append_parray(copy, False)
 
                 # y_low
-                copy = pa.extract_particles( y_low )
+                copy = pa.extract_particles(y_low, None, False)
                 if copy.get_number_of_particles() > 0:
                     self._add_array_to_array(copy.get_carray('y'), yt_low)
                     self._mul_to_array(copy.get_carray('v'), -1)
-                    added.append_parray(copy)
+                    added.append_parray(copy, False)
 
             if mirror_in_z:
                 # Now do the corners from the previous.
@@ -667,35 +667,35 @@ cdef class CPUDomainManager(DomainManagerBase):
                         high.append(i)
                         high_translate.append(2*(zmax - zi))
 
-                copy = added.extract_particles(low)
+                copy = added.extract_particles(low, None, False)
                 if copy.get_number_of_particles() > 0:
                     self._add_array_to_array(copy.get_carray('z'), low_translate)
                     self._mul_to_array(copy.get_carray('w'), -1)
-                    added.append_parray(copy)
+                    added.append_parray(copy, False)
 
-                copy = added.extract_particles(high)
+                copy = added.extract_particles(high, None, False)
                 if copy.get_number_of_particles() > 0:
                     self._add_array_to_array(copy.get_carray('z'), high_translate)
                     self._mul_to_array(copy.get_carray('w'), -1)
-                    added.append_parray(copy)
+                    added.append_parray(copy, False)
 
                 # Add the actual z_high and z_low now.
                 # z_high
-                copy = pa.extract_particles( z_high )
+                copy = pa.extract_particles(z_high, None, False)
                 if copy.get_number_of_particles() > 0:
                     self._add_array_to_array(copy.get_carray('z'), zt_high)
                     self._mul_to_array(copy.get_carray('w'), -1)
-                    added.append_parray(copy)
+                    added.append_parray(copy, False)
 
                 # z_low
-                copy = pa.extract_particles( z_low )
+                copy = pa.extract_particles(z_low, None, False)
                 if copy.get_number_of_particles() > 0:
                     self._add_array_to_array(copy.get_carray('z'), zt_low)
                     self._mul_to_array(copy.get_carray('w'), -1)
-                    added.append_parray(copy)
+                    added.append_parray(copy, False)
 
 
-            added.tag[:] = Ghost
+            added.get_carray('tag').get_npy_array()[:] = Ghost
             pa.append_parray(added)
 
     cdef _box_wrap_periodic(self):
